@@ -25,6 +25,14 @@ for _p, _t in (('C01', 'reads that succeed in some CPython execution are visible
         tech='CrossHair/z3 symbolic execution of the real extractor and Flow.names_at with symbolic identifier strings (one path per equality pattern), reference = definitional interpreter exhaustive over execution decisions',
         text='Bounded symbolic execution of the real analysis over an enumerated family of program shapes: ' + _t + '. Per shape the identifiers are solver variables; "confirmed" = every equality pattern of the identifiers (Bell(n) paths) explored with no counterexample; the claim covers all identifier strings of the fixed length, not a sample alphabet.',
         note=_T_NOTE, ref='3/' + _p)
+CHECKS['C04'] = dict(cat='other',
+    tech='CrossHair/z3: one shared analysis state queried in a solver-chosen order of its read sites, symbolic identifiers, differential against a fresh state per read',
+    text='Bounded symbolic execution of the real extractor/Flow memoisation: for every shape (loops, nested branches), every permutation of the read sites as query history (solver variable, enumerated) and every equality pattern of symbolic identifiers, each read yields the same alternatives as on a fresh analysis; plus lint-vs-fresh-query agreement through the public API on canonical namings.',
+    note=_T_NOTE + ' Query history is a finite selector (E); project-level request histories are C09.', ref='3/C04')
+CHECKS['C17'] = dict(cat='other',
+    tech='CrossHair/z3: set iteration order of identity-hashed objects as solver-chosen permutation (rebound `set` in supp.name/scope/evaluator), real location()/exported names compared with the insertion-order run',
+    text='Solver-enumerated (E): every iteration order of the sets built while resolving a multiply-bound name (6^3 orders per program, 6 programs incl. cross-module from-import/attribute access) gives the same location() result and exported names, with alternatives in source order. This replaces fresh-process/hash-seed runs, which are outside the technique.',
+    note='`set` rebound to a subclass with harness-chosen iteration order; dict order and os.listdir order not varied; each path is one concrete run.', ref='3/C17')
 NA = {}
 
 def main():
